@@ -294,6 +294,9 @@ func vf10Deadlines(n *wire.Net, s wire.Side, setupOK bool) string {
 		}
 	}
 	if setupOK {
+		if wd := n.WriteDeadline(s); !wd.IsZero() {
+			return fmt.Sprintf("VIOL[c10-obfs2-deadline-not-cleared]: the handshake succeeded but a write deadline (%v) is still armed: every Write of the established connection fails once the handshake timeout has passed", wd)
+		}
 		if last == nil || !last.T.IsZero() || !n.ReadDeadline(s).IsZero() {
 			return fmt.Sprintf("VIOL[c10-obfs2-deadline-not-cleared]: the handshake succeeded but the last deadline call is not the zero time (%+v): an established connection would be killed by the stale handshake timer", last)
 		}
